@@ -46,6 +46,7 @@ SPEC = {
                     "sources and BUILD files do not change while the invocations run",
                     "scratch filesystem supports user xattrs and flock"],
     "harness_timeout": 2400,
+    "search_rounds": 1,   # one widened (thorough-tier) sweep when a proof/correspondence breaks without a failing input
     "explanation": "The --nolock flag (src/please.go:90) is declared but read nowhere (fact noLockFlagReads = 0): it cannot serve as a "
                    "negative control; the negative control is the model witness C31_lock_needed plus the mutation dry-runs.",
 }
